@@ -126,6 +126,12 @@ def sym_roundtrips(res, rng, tier):
             sim.add(m=1e-3, a=1.0, e=0.1 * rng.random(), f=rng.uniform(0, 6), inc=0.1)
             sim.add(m=3e-4, a=2.2, e=0.1 * rng.random(), f=rng.uniform(0, 6))
             sim.move_to_com()
+            if rep % 2:                     # every other repetition in a displaced, moving frame
+                for p in sim.particles:
+                    p.x += 2.0
+                    p.z -= 1.0
+                    p.vy += 0.3
+                    p.vz += 0.1
             sim.integrator = name
             sim.dt = 0.02
             if name == "whfast":
